@@ -287,16 +287,24 @@ class MibCompiler(object):
 
                 except error.PySmiError:
                     exc_class, exc, tb = sys.exc_info()
+
+                    # if the module asked for has been read all right, the
+                    # error belongs to a later module of the same file
+                    failedMib = mibname in parsedMibs and mibTree[0] or mibname
+
                     exc.source = source
-                    exc.mibname = mibname
-                    exc.msg += ' at MIB %s' % mibname
+                    exc.mibname = failedMib
+                    exc.msg += ' at MIB %s' % failedMib
 
                     debug.logger & debug.flagCompiler and debug.logger('%serror %s from %s' % (
                         options.get('ignoreErrors') and 'ignoring ' or 'failing on ', exc, source))
 
-                    failedMibs[mibname] = exc
+                    failedMibs[failedMib] = exc
 
-                    processed[mibname] = statusFailed.setOptions(error=exc)
+                    processed[failedMib] = statusFailed.setOptions(error=exc)
+
+                    if failedMib != mibname:
+                        break
 
             else:
                 exc = error.PySmiError('MIB source %s not found' % mibname)
